@@ -43,7 +43,7 @@ PATHS = ['fkey', 'keygen', '_keygen', 'call']
 def cases(draw, path):
     sig = draw(S.signatures())
     # 'partial_bound': functools.partial over a BOUND method of a real class, fixing leading positionals (the instance is bound, the presets follow it)
-    kind = draw(st.sampled_from(['function', 'function', 'method', 'partial', 'partial_bound']))
+    kind = draw(st.sampled_from(['function', 'function', 'method', 'partial', 'partial_bound', 'bound']))      # 'bound': the cached callable is a bound-method OBJECT (cache(...)(instance.method))
     vals = V.hashables(max_depth=1, special_floats=False)
     nfix = 0
     if kind in ('partial', 'partial_bound'):
@@ -62,6 +62,9 @@ def cases(draw, path):
     tol = draw(st.sampled_from([None, None, None, 0, 1]))
     deep = draw(st.booleans()) if tol is not None else False
     if tol is not None:
+        # floats that round to NEGATIVE zero (-0.04 at one decimal): 0.0 == -0.0, but text / pickle / digest keys tell them apart, so every
+        # spelling must round the same way
+        vals = st.one_of(vals, vals, st.sampled_from([-0.0, -0.004, -0.04, -0.4, 0.04, -0.44]).map(lambda x: ['f', repr(x)]))
         sig = stabilise_defaults(sig, tol)
         pkw = [[n, stable_spec(v, tol)] for n, v in pkw]
     rest = rest_sig(sig, nfix, pkw)
@@ -145,6 +148,11 @@ def build_target(case, log):
     if case['kind'] == 'method':
         fn = S.make_plain(S.with_self(sig), body)
         return fn, (S.Holder(),), fn
+    if case['kind'] == 'bound':
+        fn = S.make_plain(S.with_self(sig), body)
+        S.Inst.f = fn             # removed again by run_case
+        m = S.Inst(0, 3).f
+        return m, (), m
     if case['kind'] == 'partial_bound':
         fn = S.make_plain(S.with_self(sig), body)
         S.Inst.f = fn             # removed again by run_case
@@ -303,7 +311,7 @@ def shape(sig):
     return (len(sig['req']), len(sig['opt']), bool(sig['varargs']), len(sig['kwreq']), len(sig['kwopt']), bool(sig['varkw']))
 
 
-REQUIRED_CLASSES = ['aliased_arguments', 'kind:partial_bound', 'ignore_in_effect', 'tol:0', 'tol:1', 'differs_beyond_kw_order', 'kw_order_differs', 'kind:method', 'kind:partial', 'path:call', 'path:keygen', 'path:_keygen', 'path:fkey']
+REQUIRED_CLASSES = ['kind:bound', 'aliased_arguments', 'kind:partial_bound', 'ignore_in_effect', 'tol:0', 'tol:1', 'differs_beyond_kw_order', 'kw_order_differs', 'kind:method', 'kind:partial', 'path:call', 'path:keygen', 'path:_keygen', 'path:fkey']
 
 EXCLUDED = {'float defaults that change under the rounding tolerance (finding D19, probed)': 'replaced by their rounded value',
             'multi-element sets in partial presets under a tolerance (deep rounding rebuilds a passed set, changing its repr order; same root cause as D19)': 'cut to one element'}
